@@ -1,7 +1,7 @@
 (* Draft model of parser.c: SCPI_Parse, SCPI_Input, SCPI_Parameter, typed readers, result writers,
    processCommand, with handlers given as scripts. Default build (malloc'd error texts). *)
 From Coq Require Import Bool List NArith ZArith Lia.
-From M Require LexModel MatchModel FmtModel NumDecode Generated.
+From M Require LexModel MatchModel FmtModel NumDecode Generated GFmt BufModel ExprModel.
 Import ListNotations.
 Local Open Scope bool_scope.
 Local Open Scope Z_scope.
@@ -30,7 +30,8 @@ Inductive event :=
 | EvF
 | EvE (code:Z)
 | EvR (ret:bool)
-| EvNum (ok:bool) (vals:list Z).
+| EvNum (ok:bool) (vals:list Z)
+| EvI (r:bool).
 
 (* ---------- handler scripts ---------- *)
 Inductive op :=
@@ -38,7 +39,10 @@ Inductive op :=
 | PCHARS (m:bool) | PTEXT (buflen:Z) (m:bool) | PBLOCK (m:bool) | PD (m:bool) | PF (m:bool) | PNUM (m:bool)
 | RI32 (v:Z) | RU32 (v:Z) (base:Z) | RI64 (v:Z) | RU64 (v:Z) (base:Z) | RBOOL (b:bool)
 | RTEXT (t:bytes) | RCHARS (t:bytes) | RBLOCK (d:bytes) | RHDR (n:Z) | RDATA (d:bytes)
-| PUSH (code:Z) | NUMS (n:Z) (dflt:Z) | SYSTERR | RETERR.
+| PUSH (code:Z) | NUMS (n:Z) (dflt:Z) | SYSTERR | RETERR
+(* the narrow integer results, mnemonics, floating point results, SCPI_IsCmd, array results, array readers, expression entries *)
+| RI8 (v:Z) | RU8 (v:Z) (base:Z) | RI16 (v:Z) | RU16 (v:Z) (base:Z) | RMNEM (t:bytes) | RD (bits:Z) | RF (bits:Z) | ISCMD (p:bytes)
+| RARR (size:Z) (fmt:Z) (vals:list Z) | PARR (ty:Z) (cap:Z) (m:bool) | PEXPRN (idx:Z) (m:bool) | PEXPRC (idx:Z) (cap:Z) (m:bool).
 
 Record ctx := {
   cmds : list (bytes * Z * list op);      (* pattern, tag, script *)
@@ -329,6 +333,56 @@ Definition desc_of (code:Z) : bytes :=
   else if code =? -350 then s [81;117;101;117;101;32;111;118;101;114;102;108;111;119]
   else s [63].   (* placeholder: the driver compares SYSTERR output only for codes it knows *)
 
+(* ---------- array results (SCPI_ResultArrayUInt8/16/32/64), array readers, expression entries ---------- *)
+Definition native_le : bool := Generated.gen_native_format =? 2.          (* SCPI_GetNativeFormat() = SCPI_FORMAT_LITTLEENDIAN *)
+Definition arr_host (size:Z) (v:Z) : bytes := bz (if native_le then BufModel.le_bytes (Z.to_nat size) v else BufModel.be_bytes (Z.to_nat size) v).
+Definition arr_swapped (size:Z) (v:Z) : Z :=
+  if size =? 1 then v else if size =? 2 then BufModel.swap16 v else if size =? 4 then BufModel.swap32 v else BufModel.swap64 v.
+Definition result_array (c:ctx) (size fmt:Z) (vals:list Z) : ctx :=
+  if fmt =? 0 then fold_left (fun c v => result_int c (if size =? 8 then 64 else 32) v 10 false) vals c
+  else
+    let n := Z.of_nat (length vals) * size in
+    if fmt =? Generated.gen_native_format then result_data (result_hdr c n) (flat_map (arr_host size) vals)
+    else
+      let c1 := result_hdr c n in
+      match vals with
+      | [] => result_data c1 []
+      | _ => if size =? 1 then result_data c1 (flat_map (arr_host size) vals)
+             else fold_left (fun c v => result_data c (arr_host size (arr_swapped size v))) vals c1
+      end.
+(* PARAM_ARRAY_TEMPLATE: read up to n elements; only the first may be mandatory *)
+Fixpoint param_array (n:nat) (rd:ctx -> bool -> ctx * bool * Z) (c:ctx) (m:bool) (acc:list Z) : ctx * bool * list Z :=
+  match n with
+  | O => (c, m, acc)
+  | S n' => let '(c1, ok, v) := rd c m in if ok then param_array n' rd c1 false (acc ++ [v]) else (c1, m, acc)
+  end.
+Definition array_reader (ty:Z) (c:ctx) (m:bool) : ctx * bool * Z :=
+  if ty =? 13 then param_int c 32 true m else if ty =? 14 then param_int c 32 false m
+  else if ty =? 15 then param_int c 64 true m else if ty =? 16 then param_int c 64 false m
+  else if ty =? 17 then param_fp c true m else param_fp c false m.
+Definition eres_code (r:ExprModel.eres) : Z := match r with ExprModel.EOK => 0 | ExprModel.EERR => 1 | ExprModel.ENOMORE => 2 end.
+Definition b2z (b:bool) : Z := if b then 1 else 0.
+(* SCPI_ExprNumericListEntry on a parameter token: (context, what the handler reports) *)
+Definition expr_numlist (c:ctx) (t:LexModel.token) (idx:Z) : ctx * list Z :=
+  match LexModel.ty t with
+  | LexModel.T_EXPR =>
+      let body := slice (mem c) (LexModel.ptr t + 1) (LexModel.len t - 2) in
+      let '(r, isr, (fo, fl), (to, tl_)) := ExprModel.numlist_walk (S (length body)) body 0 0 idx in
+      let c1 := match r with ExprModel.EERR => error_push c (-170) None | _ => c end in
+      (c1, eres_code r :: match r with ExprModel.EOK => [b2z isr; fo + 1; fl] ++ (if isr then [to + 1; tl_] else []) | _ => [] end)
+  | _ => (error_push c (-104) None, [1])
+  end.
+Definition expr_chanlist (c:ctx) (t:LexModel.token) (idx cap:Z) : ctx * list Z :=
+  match LexModel.ty t with
+  | LexModel.T_EXPR =>
+      let body := slice (mem c) (LexModel.ptr t + 1) (LexModel.len t - 2) in
+      let '(r, isr, vf, vt, dims, nerr) := ExprModel.chanlist_entry body idx cap in
+      let c1 := if 0 <? nerr then error_push c (-170) None else c in
+      let m := Z.to_nat (Z.min cap dims) in
+      (c1, eres_code r :: match r with ExprModel.EOK => [b2z isr; dims] ++ firstn m vf ++ (if isr then firstn m vt else []) | _ => [] end)
+  | _ => (error_push c (-104) None, [1])
+  end.
+
 (* ---------- running a script ---------- *)
 (* policy: a failed read aborts with SCPI_RES_ERR if the parameter was mandatory or an error occurred, else continues *)
 Definition after_read (c:ctx) (ok mandatory:bool) : bool (* continue? *) := ok || (negb mandatory && negb (cmd_error c)).
@@ -375,6 +429,31 @@ Fixpoint run_script (s:list op) (c:ctx) (descs:Z -> bytes) : ctx * bool (* handl
         let c1 := emit_empty (upd_err c (cmd_error c) q' (qma c)) in
         cont (result_error c1 code info (descs code)) true
     | RETERR => (c, false)
+    | RI8 v => cont (result_int c 32 v 10 true) true
+    | RU8 v b => cont (result_int c 32 v b false) true
+    | RI16 v => cont (result_int c 32 v 10 true) true
+    | RU16 v b => cont (result_int c 32 v b false) true
+    | RMNEM t => cont (item c [cstr (length t) t]) true
+    | RD bits => cont (item c [bz (GFmt.fmt_double 15 bits)]) true
+    | RF bits => cont (item c [bz (GFmt.fmt_float 6 bits)]) true
+    | ISCMD p =>
+        match cur c with
+        | Some (pat,_,_) => match MatchModel.matchCommand pat p None 0 with MatchModel.Res r _ => cont (ev c (EvI r)) true end
+        | None => cont (ev c (EvI false)) true
+        end
+    | RARR size fmt vals => cont (result_array c size fmt vals) true
+    | PARR ty cap m =>
+        let '(c1, m1, vals) := param_array (Z.to_nat cap) (array_reader ty) c m [] in
+        let ok := negb m1 in
+        cont (ev c1 (EvP ty ok (if ok then vals else []))) (after_read c1 ok m)
+    | PEXPRN idx m =>
+        let '(c1, ok, t) := parameter c m in
+        if ok then let '(c2, rep) := expr_numlist c1 t idx in cont (ev c2 (EvP 19 true rep)) true
+        else cont (ev c1 (EvP 19 false [])) (after_read c1 false m)
+    | PEXPRC idx cap m =>
+        let '(c1, ok, t) := parameter c m in
+        if ok then let '(c2, rep) := expr_chanlist c1 t idx cap in cont (ev c2 (EvP 20 true rep)) true
+        else cont (ev c1 (EvP 20 false [])) (after_read c1 false m)
     end
   end.
 
